@@ -32,9 +32,17 @@ inductive E where
   | join (e : E)                   -- `%{ for … }body%{ endfor }`: the iteration results, concatenated
   | tmpl (parts : List E)          -- a quoted template: literal parts are `str`, the others interpolations
   | strip (l r : Bool) (e : E)     -- an interpolation written `${~ e ~}`: which strip markers it carries
+  | call (name : String) (args : List E) (expand : Bool)   -- `name(args)`; with `expand`: `name(args...)`
   | heredoc (flush : Bool) (parts : List E)
       -- `<<EOT` / `<<-EOT`: the template tokens as the scanner yields them (a literal never spans a line end)
   deriving Repr
+
+/-- static type of a result as far as conditionals care -/
+inductive Ty where
+  | num | bool | str
+  | dyn        -- nothing known (a failed lookup, index, attribute …) or a literal null
+  | other      -- a collection
+  deriving DecidableEq, Repr
 
 inductive V where
   | num (n : Int)
@@ -45,14 +53,8 @@ inductive V where
   | obj (items : List (String × V))   -- sorted by key
   | listv (vs : List V)               -- a value of a list type (only variables have one)
   | mapv (items : List (String × V))  -- a value of a map type, sorted by key
+  | tnull (t : Ty)                    -- a null of a known type: a literal null that a conditional converted to its other result's type
   deriving Repr
-
-/-- static type of a result as far as conditionals care -/
-inductive Ty where
-  | num | bool | str
-  | dyn        -- nothing known (a failed lookup, index, attribute …) or a literal null
-  | other      -- a collection
-  deriving DecidableEq, Repr
 
 inductive Res where
   | ok (v : V)
@@ -68,7 +70,7 @@ mutual
   def V.beq : V → V → Bool
     | .num a, .num b => a == b
     | .bool a, .bool b => a == b
-    | .null, .null => true
+    | .null, .null | .null, .tnull _ | .tnull _, .null | .tnull _, .tnull _ => true
     | .str a, .str b => a == b
     | .tuple a, .tuple b => V.beqList a b
     | .obj a, .obj b => V.beqItems a b
@@ -159,6 +161,7 @@ def V.ty : V → Ty
   | .bool _ => .bool
   | .str _ => .str
   | .null => .dyn
+  | .tnull t => t
   | _ => .other
 
 def Res.ty : Res → Ty
@@ -181,7 +184,27 @@ def convTo (t : Ty) (v : V) : V :=
   match t, v with
   | .str, .num n => .str (toString n)
   | .str, .bool b => .str (if b then "true" else "false")
+  | .dyn, v => v
+  | t, .null | t, .tnull _ => .tnull t          -- a null takes the type it is converted to
   | _, v => v
+
+def V.isNull : V → Bool
+  | .null | .tnull _ => true
+  | _ => false
+
+/-- a literal `null`: a null of no type -/
+def Res.isDynNull : Res → Bool
+  | .ok .null => true
+  | _ => false
+
+/-- ConditionalExpr.Value, the choice of the result type from the two results:
+    a literal null takes the other result's type; when either type is unknown nothing is converted
+    and the result type stays unknown; otherwise both are unified.  `none`: inconsistent. -/
+def condType (tr fr : Res) : Option Ty :=
+  if tr.isDynNull then some fr.ty
+  else if fr.isDynNull then some tr.ty
+  else if tr.ty == .dyn || fr.ty == .dyn then some .dyn
+  else unifyTy tr.ty fr.ty
 
 def indexV (c k : V) : Res :=
   match c with
@@ -231,6 +254,103 @@ def normTmpl : Option E → List E → List E
         .str s2
       | e => e.unstrip
     p' :: normTmpl (some p) rest
+
+/-! ### function calls (FunctionCallExpr.Value)
+
+  The functions are the caller's: the correspondence harness installs four (`c18Funcs` in c18.go),
+  modelled here.  What belongs to the language: lookup of the name, the expanding final argument,
+  the arity rules, conversion of every argument to its parameter's type, null arguments, and that
+  any error makes the call an error of unknown type. -/
+
+inductive PTy where
+  | num | str | bool | any
+  deriving DecidableEq, Repr
+
+structure FunSig where
+  params : List PTy
+  varParam : Option PTy
+
+def funSig : String → Option FunSig
+  | "add2" => some ⟨[.num, .num], none⟩
+  | "cat" => some ⟨[], some .str⟩
+  | "neg1" => some ⟨[.bool], none⟩
+  | "pick" => some ⟨[.num], some .any⟩
+  | _ => none
+
+/-- decimal text of an integer, optional minus sign -/
+def plainInt? (s : String) : Option Int :=
+  let cs := s.toList
+  let (neg, ds) := match cs with | '-' :: r => (true, r) | r => (false, r)
+  if ds.isEmpty || !ds.all Char.isDigit then none
+  else
+    let v : Nat := ds.foldl (fun acc c => acc * 10 + (c.toNat - 48)) 0
+    some (if neg then -(v : Int) else v)
+
+/-- could the text be some other spelling of a number (fraction, exponent, infinity …)?  Those are not compared. -/
+def numberish (s : String) : Bool :=
+  let cs := s.toList.map Char.toLower
+  cs.any Char.isDigit || (cs.contains 'i' && cs.contains 'n' && cs.contains 'f')
+
+/-- conversion of an argument to its parameter's type (cty's `convert`), then the null rule -/
+def convArg : PTy → V → Res
+  | .any, v => .ok v
+  | _, .null | _, .tnull _ => .err .dyn         -- converted to a typed null, which the call refuses
+  | .num, .num n => .ok (.num n)
+  | .num, .str s =>
+    match plainInt? s with
+    | some n => .ok (.num n)
+    | none => if numberish s then .inexact else .err .dyn
+  | .num, _ => .err .dyn
+  | .str, .str s => .ok (.str s)
+  | .str, .num n => .ok (.str (intToStr n))
+  | .str, .bool b => .ok (.str (if b then "true" else "false"))
+  | .str, _ => .err .dyn
+  | .bool, .bool b => .ok (.bool b)
+  | .bool, .str s =>
+    if s == "true" || s == "1" then .ok (.bool true)
+    else if s == "false" || s == "0" then .ok (.bool false)
+    else .err .dyn
+  | .bool, _ => .err .dyn
+
+/-- all arguments converted: an error anywhere is an error, otherwise an inexact one makes the call inexact -/
+def convArgs (sig : FunSig) : Nat → List V → Res × List V
+  | _, [] => (.ok .null, [])
+  | i, v :: vs =>
+    let pt := (sig.params[i]?).getD (sig.varParam.getD .any)
+    let (st, rest) := convArgs sig (i + 1) vs
+    match convArg pt v, st with
+    | .err _, _ | _, .err _ => (.err .dyn, [])
+    | .inexact, _ | _, .inexact => (.inexact, [])
+    | .ok x, .ok _ => (.ok .null, x :: rest)
+
+def applyFun (name : String) (vs : List V) : Res :=
+  match name, vs with
+  | "add2", [.num a, .num b] => .ok (.num (a + b))
+  | "neg1", [.bool b] => .ok (.bool (!b))
+  | "cat", parts =>
+    match parts.mapM (fun v => match v with | V.str s => some s | _ => none) with
+    | some ss => .ok (.str (String.join ss))
+    | none => .err .dyn
+  | "pick", .num i :: xs =>
+    if i < 0 then .err .dyn
+    else match xs[i.toNat]? with
+      | some v => .ok v
+      | none => .err .dyn
+  | _, _ => .err .dyn
+
+/-- the call, given what the expanding argument supplied (`extra`) and the values of the others -/
+def callWith (name : String) (fixed extra : List V) : Res :=
+  match funSig name with
+  | none => .err .dyn
+  | some sig =>
+    match convArgs sig 0 (fixed ++ extra) with
+    | (.err _, _) => .err .dyn
+    | (.inexact, _) => .inexact
+    | (.ok _, vs) => applyFun name vs
+
+/-- the arity rule: fewer than the parameters, or more without a variadic parameter -/
+def arityOk (sig : FunSig) (n : Nat) : Bool :=
+  !(n < sig.params.length) && !(sig.varParam.isNone && n > sig.params.length)
 
 /-! ### flush heredocs (`<<-EOT`), parser_template.go flushHeredocTemplateParts
 
@@ -336,7 +456,7 @@ def eval (fuel : Nat) (env : Env) (e : E) : Res :=
       let fr := ev env f
       -- an inexact result may be a number or a comparison of numbers: its type is not known here
       if (tr matches .inexact) || (fr matches .inexact) then .inexact else
-      match unifyTy tr.ty fr.ty with
+      match condType tr fr with
       | none => .err .dyn                                    -- inconsistent result types
       | some .other => if tr.isErr || fr.isErr || (ev env c).isErr then .err .other else .inexact
       | some ut =>
@@ -344,13 +464,13 @@ def eval (fuel : Nat) (env : Env) (e : E) : Res :=
         | .err _ => .err ut
         | .inexact => .inexact
         | .ok cv =>
-          match cv, asBool cv with
-          | .null, _ => .err ut
+          match cv.isNull, asBool cv with
+          | true, _ => .err ut
           | _, none => .err ut
           | _, some b =>
             match (if b then tr else fr) with
             | .ok x => .ok (convTo ut x)
-            | .err _ => .err ut
+            | .err t => .err (if ut == .dyn then t else ut)   -- nothing is converted when the result type is unknown
             | .inexact => .inexact
     | .tuple es =>
       match evalList es with
@@ -370,7 +490,7 @@ def eval (fuel : Nat) (env : Env) (e : E) : Res :=
     | .forE kx x coll keyE body filter group =>
       match ev env coll with
       | .ok cv =>
-        match (if cv matches .null then none else elems cv) with
+        match (if cv.isNull then none else elems cv) with
         | none => .err .dyn                                  -- null or not iterable
         | some kvs =>
           -- (status, tuple results, object results, groups) over the elements, in iteration order
@@ -428,7 +548,7 @@ def eval (fuel : Nat) (env : Env) (e : E) : Res :=
       | none => .err .dyn
     | .splat src each =>
       match ev env src with
-      | .ok .null => .ok (.tuple [])                          -- a null that is not of a sequence type: no elements
+      | .ok .null | .ok (.tnull _) => .ok (.tuple [])         -- a null that is not of a sequence type: no elements
       | .ok sv =>
         let items : List V := match sv with
           | .tuple vs | .listv vs => vs
@@ -463,6 +583,33 @@ def eval (fuel : Nat) (env : Env) (e : E) : Res :=
       | r => r
     | .strip _ _ a => ev env a
     | .heredoc fl ps => ev env (.tmplS (heredocParts fl ps))
+    | .call name args expand =>
+      match funSig name with
+      | none => .err .dyn                                    -- no such function
+      | some sig =>
+        let fixed := if expand then args.dropLast else args
+        -- the expanding argument is evaluated first: it must be a known, non-null sequence
+        let extra : Res × List V :=
+          if expand then
+            match args.getLast? with
+            | none => (.err .dyn, [])
+            | some x =>
+              match ev env x with
+              | .ok (.tuple vs) | .ok (.listv vs) => (.ok .null, vs)
+              | .ok _ => (.err .dyn, [])
+              | .err _ => (.err .dyn, [])
+              | .inexact => (.inexact, [])
+          else (.ok .null, [])
+        match extra with
+        | (.err _, _) => .err .dyn
+        | (.inexact, _) => .inexact
+        | (.ok _, evs) =>
+          if !arityOk sig (fixed.length + evs.length) then .err .dyn
+          else
+            match evalList fixed with
+            | (.err _, _) => .err .dyn
+            | (.inexact, _) => .inexact
+            | (.ok _, vs) => callWith name vs evs
     | .tmpl parts0 =>
       let parts := normTmpl none parts0
       match parts with
